@@ -156,7 +156,7 @@ def check(pid, tier, seed, only=None, jobs_n=None):
             # the same concrete sample run twice in one process gave two different observations: the response depends on history
             nrep += 1
             rp = os.path.join(EVID, "replays", f"{pid}-{v['fn']}-{nrep}.json")
-            json.dump({"property": pid, "module": modname, "fn": v["fn"], "shard": v["shard"], "args": v["args"], "repeat": True}, open(rp, "w"), indent=1, default=repr)
+            json.dump({"property": pid, "module": modname, "fn": v["fn"], "shard": v["shard"], "args": v["args"], "repeat": True, "sequence": v.get("sequence")}, open(rp, "w"), indent=1, default=repr)
             rc, outp = replay(rp)
             rec["replay"] = rp; rec["args"] = v["args"]
             if rc == 1:
@@ -167,7 +167,7 @@ def check(pid, tier, seed, only=None, jobs_n=None):
             # the same concrete sample run twice in one process gave two different observations: the response depends on history
             nrep += 1
             rp = os.path.join(EVID, "replays", f"{pid}-{v['fn']}-{nrep}.json")
-            json.dump({"property": pid, "module": modname, "fn": v["fn"], "shard": v["shard"], "args": v["args"], "repeat": True}, open(rp, "w"), indent=1, default=repr)
+            json.dump({"property": pid, "module": modname, "fn": v["fn"], "shard": v["shard"], "args": v["args"], "repeat": True, "sequence": v.get("sequence")}, open(rp, "w"), indent=1, default=repr)
             rc, outp = replay(rp)
             rec["replay"] = rp; rec["args"] = v["args"]
             if rc == 1:
